@@ -163,6 +163,87 @@ end Demo
 /-- non-vacuity: received 1000 for total 300 with open requests 100 and 200: owed 333 + 666 ≤ 1000 -/
 example : owedOpen [⟨1, "a", 100⟩, ⟨1, "b", 200⟩, ⟨2, "a", 5⟩] 1 1000 300 = 999 := by decide
 
+/-- "a staked total without any LST outstanding" -/
+def Ownerless (st : St) : Prop := st.totalLst = 0 ∧ st.totalNative ≠ 0
+
+/-- **ownerless stake is only ever declared by the admin.**  The stake handler sweeps a staked total that has no LST
+behind it into `total_fees` — tokens the contract does not hold (they were forwarded to the staker).  No message other
+than `ResumeContract` produces such a state: stakes mint, `SubmitBatch` of the whole supply sets aside the whole total
+(`N·L/L = N`), rewards are refused while no LST is outstanding, everything else leaves the totals alone.  (The monitor
+`ownerless_sweep` evaluates the same statement along histories of the real contract.) -/
+theorem ownerless_only_by_resume {s s' : CState} {env : Env} {info : Info} {m : ExecMsg} {out : List SubMsg}
+    (hx : execute s env info m = .ok (s', out)) (h0 : ¬ Ownerless s.st)
+    (hm : ∀ n l r, m ≠ .resumeContract n l r) : ¬ Ownerless s'.st := by
+  unfold Ownerless at *
+  cases m <;> simp only [execute] at hx
+  case liquidStake mt tn ex =>
+    simp only [bind_ok] at hx
+    obtain ⟨pay, _, hx⟩ := hx
+    obtain ⟨st, mint, _, _, _, _, _, hm0, _, _, _, hcase⟩ := liquidStake_eff hx
+    rcases hcase with ⟨_, hs', _⟩ | ⟨_, _, hs', _⟩ <;> subst hs' <;> simp only <;> omega
+  case liquidUnstake =>
+    simp only [bind_ok] at hx
+    obtain ⟨a, _, hx⟩ := hx
+    obtain ⟨_, _, b, _, hs'⟩ := liquidUnstake_eff hx
+    subst hs'; exact h0
+  case submitBatch =>
+    obtain ⟨batch, u, _, _, _, _, _, hb, hu, _, hs', _⟩ := submitBatch_eff hx
+    subst hs'
+    simp only
+    intro ⟨hL', hN'⟩
+    apply hN'
+    have hbL : batch.total = s.st.totalLst := by
+      by_cases hle : batch.total ≤ s.st.totalLst
+      · rw [checkedSub_some.mpr ⟨hle, rfl⟩] at hL'
+        simp only [Option.getD_some] at hL'; omega
+      · exact absurd hb hle
+    unfold computeUnbond at hu
+    split at hu
+    · rename_i hz
+      -- an empty batch: nothing outstanding before either, so nothing was staked
+      have hL0 : s.st.totalLst = 0 := by omega
+      have hN0 : s.st.totalNative = 0 := by
+        by_cases hn : s.st.totalNative = 0
+        · exact hn
+        · exact absurd ⟨hL0, hn⟩ h0
+      simp only [Except.ok.injEq] at hu
+      rw [hN0, ← hu]; simp [checkedSub]
+    · simp only [mulRatio_ok] at hu
+      obtain ⟨hne, _, hu⟩ := hu
+      have : u = s.st.totalNative := by
+        rw [hu, hbL]; exact Nat.mul_div_cancel _ (Nat.pos_of_ne_zero hne)
+      rw [this, checkedSub_some.mpr ⟨Nat.le_refl _, rfl⟩]; simp
+  case withdraw b =>
+    obtain ⟨_, _, _, _, _, _, _, _, _, _, _, hs', _⟩ := withdraw_eff hx
+    subst hs'; exact h0
+  case addValidator v => obtain ⟨_, _, _, _, hs'⟩ := addValidator_eff hx; subst hs'; exact h0
+  case removeValidator v => obtain ⟨_, _, _, hs'⟩ := removeValidator_eff hx; subst hs'; exact h0
+  case transferOwnership n => obtain ⟨_, o, _, hs'⟩ := transferOwnership_eff hx; subst hs'; exact h0
+  case acceptOwnership => obtain ⟨_, o, _, hs'⟩ := acceptOwnership_eff hx; subst hs'; exact h0
+  case revokeOwnershipTransfer => obtain ⟨_, o, _, hs'⟩ := revokeOwnership_eff hx; subst hs'; exact h0
+  case updateConfig n p f mo bp =>
+    obtain ⟨_, _, nat', proto', fee', mons', bp', _, _, _, _, _, hs'⟩ := updateConfig_eff hx
+    subst hs'; exact h0
+  case receiveRewards =>
+    obtain ⟨reward, fee, _, _, _, hL, _, hc, hfee, _, _, _, hs', _⟩ := receiveRewards_eff hx
+    subst hs'
+    simp only
+    intro ⟨hL', _⟩; exact hL hL'
+  case receiveUnstakedTokens b =>
+    obtain ⟨_, _, _, _, _, _, _, _, _, _, _, hs'⟩ := receiveUnstaked_eff hx; subst hs'; exact h0
+  case circuitBreaker =>
+    unfold circuitBreaker at hx
+    simp only [bind_ok, pure_ok] at hx
+    obtain ⟨_, _, hx⟩ := hx; cases hx; exact h0
+  case resumeContract n l r => exact absurd rfl (hm n l r)
+  case recover pg sel rc =>
+    obtain ⟨_, _, _, _, _, _, _, _, _, _, _, _, _, _, hs', _⟩ := recover_eff hx
+    subst hs'; exact h0
+  case feeWithdraw a =>
+    unfold feeWithdraw at hx
+    simp only [bind_ok, pure_ok, ensure_ok, decide_eq_true_eq] at hx
+    obtain ⟨_, _, _, hle, _, _, hx⟩ := hx; cases hx; exact h0
+
 /-- the statements of this file quantify over every message the staking contract accepts: the `ExecuteMsg` the source
 declares (table regenerated from /repo's `msg.rs` on every run) has exactly the variants, fields and types of the
 model's `ExecMsg`, and the contract exports exactly the modelled entry points.  A message or entry point added to the
